@@ -443,3 +443,40 @@ Proof.
     split; [apply Forall_nil|exact Hsep].
   - split; [lia|]. split; [lia|apply Forall_nil].
 Qed.
+
+(* ---- C06 restated over whole device memories (any number of separated segments) --------------------- *)
+
+Lemma read_memory c w a n d : good_conf (c, w) -> mem_read (w_segs w) a n = Some d ->
+  exists c' w', ctl_read a n (c, w) = (Ok d, (c', w')) /\ w_segs w' = w_segs w /\ good_conf (c', w').
+Proof.
+  intros Hg Hm. destruct conforming_reads_conf as [(_ & _ & Hh) Hc].
+  destruct (Hc a n (c, w) d Hg Hm) as ([c' w'] & Hrun). exists c', w'. split; [exact Hrun|].
+  destruct (Hh a n (c, w) (Ok d) (c', w') Hg Hrun) as (G & S & _). cbn [snd] in S. auto.
+Qed.
+
+Lemma write_memory c w a data old : good_conf (c, w) -> 0 < zlen data -> bytes_ok data ->
+  mem_read (w_segs w) a (zlen data) = Some old ->
+  exists c' w', ctl_write a data (c, w) = (Ok tt, (c', w')) /\ seg_write (w_segs w) a data = Some (w_segs w') /\
+                mem_read (w_segs w') a (zlen data) = Some data.
+Proof.
+  intros ((Ho & Hma & Hid & Hab & Hw & Hsep) & Hmc & HR & Hc) Hpos Hb Hm.
+  unfold mem_read in Hm. destruct ((a <? 0) || (2 ^ 64 <? a + zlen data)) eqn:EV; [discriminate|].
+  apply orb_false_iff in EV as [EV1 EV2]. apply Z.ltb_ge in EV1, EV2.
+  destruct (zlen data <=? 0) eqn:N0; [lia|].
+  destruct (seg_read_range_in _ Hsep _ _ _ Hpos Hm) as (pre & b & m & post & Hri & _ & _ & _).
+  destruct (ctl_write_exact c w a data pre b m post Ho ltac:(lia) Hid HR Hc Hb Hri EV1 EV2)
+    as (c' & w' & Hrun & Hs & _).
+  exists c', w'. split; [exact Hrun|]. pose proof Hri as (Eq & G1 & G2 & G3 & G4).
+  split.
+  - rewrite (seg_write_in _ _ _ _ _ _ _ a data Hri ltac:(lia) ltac:(lia)). rewrite Hs. reflexivity.
+  - unfold mem_read. rewrite Hs.
+    destruct (a <? 0) eqn:A0; [lia|]. destruct (2 ^ 64 <? a + zlen data) eqn:A1; [lia|]. cbn [orb]. rewrite N0.
+    assert (Hri' : range_in (pre ++ (b, set_at (a - b) m data) :: post) a (zlen data) pre b (set_at (a - b) m data) post).
+    { rewrite Eq in Hri. apply range_in_after_write; [exact Hri|lia|lia]. }
+    rewrite (seg_read_in _ _ _ _ _ _ _ a (zlen data) Hri' ltac:(lia) ltac:(lia) ltac:(lia)).
+    f_equal. unfold set_at.
+    assert (E : drop (a - b) (take (a - b) m ++ data ++ drop (a - b + zlen data) m) = data ++ drop (a - b + zlen data) m).
+    { pose proof (drop_app_exact (take (a - b) m) (data ++ drop (a - b + zlen data) m)) as X.
+      rewrite zlen_take in X by lia. exact X. }
+    rewrite E. apply take_app_exact.
+Qed.
